@@ -477,11 +477,111 @@ func buildGraph(kind int, m *model) weightedGraph {
 
 // implicitGraph exposes only what traverse.Graph and path.Weighted need, so
 // that the routines take their "not a graph.Graph" route (nodes added lazily).
+// Without w it is a bare traverse.Graph (uniform cost).
 type implicitGraph struct{ g weightedGraph }
 
 func (i implicitGraph) From(id int64) graph.Nodes              { return i.g.From(id) }
 func (i implicitGraph) Edge(u, v int64) graph.Edge             { return i.g.Edge(u, v) }
 func (i implicitGraph) Weight(x, y int64) (w float64, ok bool) { return i.g.Weight(x, y) }
+
+type implicitPlain struct{ g graph.Graph }
+
+func (i implicitPlain) From(id int64) graph.Nodes  { return i.g.From(id) }
+func (i implicitPlain) Edge(u, v int64) graph.Edge { return i.g.Edge(u, v) }
+
+// Views of a graph: what the value handed to the routines implements.
+const (
+	viewFull       = iota // the container itself (graph.Weighted and more)
+	viewWeightOnly        // graph.Graph (+Directed/Undirected) and the one-method path.Weighted
+	viewPlain             // graph.Graph (+Directed/Undirected) only: the documented UniformCost applies
+	numViews
+)
+
+var viewNames = []string{"view=container", "view=graph+path.Weighted-only", "view=graph-only-uniform-cost"}
+
+type directedGraph interface {
+	graph.Graph
+	HasEdgeFromTo(uid, vid int64) bool
+	To(id int64) graph.Nodes
+}
+
+type undirectedGraph interface {
+	graph.Graph
+	EdgeBetween(xid, yid int64) graph.Edge
+}
+
+// plainDir and plainUnd expose graph.Directed / graph.Undirected and nothing else.
+type plainDir struct{ g directedGraph }
+
+func (p plainDir) Node(id int64) graph.Node       { return p.g.Node(id) }
+func (p plainDir) Nodes() graph.Nodes             { return p.g.Nodes() }
+func (p plainDir) From(id int64) graph.Nodes      { return p.g.From(id) }
+func (p plainDir) HasEdgeBetween(x, y int64) bool { return p.g.HasEdgeBetween(x, y) }
+func (p plainDir) Edge(u, v int64) graph.Edge     { return p.g.Edge(u, v) }
+func (p plainDir) HasEdgeFromTo(u, v int64) bool  { return p.g.HasEdgeFromTo(u, v) }
+func (p plainDir) To(id int64) graph.Nodes        { return p.g.To(id) }
+
+type plainUnd struct{ g undirectedGraph }
+
+func (p plainUnd) Node(id int64) graph.Node          { return p.g.Node(id) }
+func (p plainUnd) Nodes() graph.Nodes                { return p.g.Nodes() }
+func (p plainUnd) From(id int64) graph.Nodes         { return p.g.From(id) }
+func (p plainUnd) HasEdgeBetween(x, y int64) bool    { return p.g.HasEdgeBetween(x, y) }
+func (p plainUnd) Edge(u, v int64) graph.Edge        { return p.g.Edge(u, v) }
+func (p plainUnd) EdgeBetween(x, y int64) graph.Edge { return p.g.EdgeBetween(x, y) }
+
+// wOnlyDir and wOnlyUnd add the Weight method (path.Weighted) but not
+// WeightedEdge, so they are not graph.Weighted.
+type wOnlyDir struct {
+	plainDir
+	w weightedGraph
+}
+
+func (p wOnlyDir) Weight(x, y int64) (float64, bool) { return p.w.Weight(x, y) }
+
+type wOnlyUnd struct {
+	plainUnd
+	w weightedGraph
+}
+
+func (p wOnlyUnd) Weight(x, y int64) (float64, bool) { return p.w.Weight(x, y) }
+
+// viewOf wraps the container according to the view.
+func viewOf(view int, g weightedGraph, und bool) graph.Graph {
+	switch view {
+	case viewWeightOnly:
+		if und {
+			return wOnlyUnd{plainUnd{g.(undirectedGraph)}, g}
+		}
+		return wOnlyDir{plainDir{g.(directedGraph)}, g}
+	case viewPlain:
+		if und {
+			return plainUnd{g.(undirectedGraph)}
+		}
+		return plainDir{g.(directedGraph)}
+	}
+	return g
+}
+
+// implicitOf gives the traverse.Graph-only view matching the view.
+func implicitOf(view int, g weightedGraph) interface {
+	From(id int64) graph.Nodes
+	Edge(u, v int64) graph.Edge
+} {
+	if view == viewPlain {
+		return implicitPlain{g}
+	}
+	return implicitGraph{g}
+}
+
+// unitArcs replaces every weight by 1 (what UniformCost sees).
+func unitArcs(arcs []arc) []arc {
+	out := make([]arc, len(arcs))
+	for i, a := range arcs {
+		out[i] = arc{a.U, a.V, 1}
+	}
+	return out
+}
 
 // ---- path helpers -----------------------------------------------------------
 
